@@ -163,6 +163,8 @@ def _flatten_all(e):
     """AST with every same-operator grouping erased (used only to *recognise* a pure regrouping)"""
     if not isinstance(e, tuple):
         return e
+    if e[0] == "str":
+        return ("str", e[1])            # without the piece list
     if e[0] == "op":
         ops = []
 
@@ -317,8 +319,6 @@ def _list_sig(path, a, b):
         fb = [(l, st) for labels, st in b for l in labels]
         if len(fa) == len(fb) and all(str(x[0]) == str(y[0]) and _same(x[1], y[1]) for x, y in zip(fa, fb)):
             return "case-labels-split-into-actions"
-    if ".body" in path or path.endswith("]"):
-        return "list-length:" + _path_kind(path)
     return "list-length:" + _path_kind(path)
 
 
@@ -343,11 +343,32 @@ def _scalar_sig(path, a, b):
     if pk.endswith("supertype_of") and isinstance(a, str) and isinstance(b, str):
         strip = lambda x: x.replace("(", "").replace(")", "")
         if strip(a.replace("ONEOF(", "ONEOF<")) == strip(b.replace("ONEOF(", "ONEOF<")):
+            # same operands in the same order, grouped differently.  Find the operators of the innermost group that changed:
+            # one operator only -> the printer dropped parentheses around the same operator (a AND (b AND c));
+            # AND mixed with ANDOR -> their relative precedence
+            ops = set(re.findall(r"\b(ANDOR|AND)\b", _changed_group(a, b))) | set(re.findall(r"\b(ANDOR|AND)\b", _changed_group(b, a)))
+            if len(ops) == 1:
+                return "parentheses-dropped-regrouping:" + ops.pop()
             return "supertype-expression-regrouped"
     if isinstance(a, str) and isinstance(b, str) and pk.endswith("[]") and ("attrs" in pk or "locals" in pk or "params" in pk or "under" in pk
                                                                             or "derive" in pk or "ret" in pk or "type" in pk or "inverse" in pk):
         return "type-reference-changed"
     return "value:" + pk
+
+
+def _changed_group(a, b):
+    """smallest parenthesised group of a (canonical supertype expression) that does not occur in b"""
+    best = a
+    stack = []
+    for i, ch in enumerate(a):
+        if ch == "(":
+            stack.append(i)
+        elif ch == ")" and stack:
+            j = stack.pop()
+            g = a[j:i + 1]
+            if not a[max(0, j - 5):j].endswith("ONEOF") and g not in b and len(g) < len(best):
+                best = g
+    return best
 
 
 def compare_decls(sd, pd, mode="source-vs-printed", robust=False):
@@ -493,7 +514,9 @@ def oracle(text, opts, wd, variant="plain", shipped=False, s_parsed=None, stages
             pnames, pd = expparse.parse_file(p1, robust=shipped)
             o.p_decls = pd
         except (Unparsed, exptok.TokError) as e:
-            return o.fail("equivalent", "printed-text-not-iso:" + re.sub(r" at line.*", "", str(e))[:70],
+            why = re.sub(r" at line.*", "", str(e))
+            sig = "printed-relational-chain-not-iso" if why.startswith("non-ISO chain of relational") else "printed-text-not-iso:" + why[:70]
+            return o.fail("equivalent", sig,
                           "the printed text is accepted by check-express but is not ISO 10303-11 syntax: %s" % e)
         if sorted(pnames) != sorted(names):
             return o.fail("equivalent", "schemas-differ", "schemas declared: source %s, printed %s" % (names, pnames))
